@@ -646,7 +646,9 @@ static J exec_op(Ctx& c, const J& op) {
     return exec_call(c, op);
 }
 
+static std::vector<Snapshot> g_victim_snaps;
 static void run_ops(Ctx& c, const J& ops, int base_index, const char* tag, int cs) {
+    bool crash_pending = false;
     for (size_t k = 0; k < ops.size(); k++) {
         const J& op = ops.at(k);
         task_begin_op(c.t, base_index + (int)k);
@@ -665,15 +667,17 @@ static void run_ops(Ctx& c, const J& ops, int base_index, const char* tag, int c
         for (auto& kv : r.o) ret.set(kv.first, kv.second);
         ret.set("edges", (long)(c.t->edges - e0));
         hist_event(ret);
-        if (is_crash_victim) { crash_explore(c, g_plan["crash"]); return; }
+        if (is_crash_victim) { crash_pending = true; g_fs.snaps.swap(g_victim_snaps); }
     }
+    // the ops after the victim call (read-outs of the NEW state) have run: now explore every crash state of the victim call
+    if (crash_pending) crash_explore(c, g_plan["crash"]);
 }
 
 // ---------------------------------------------------------------- crash exploration (DESIGN 2.6)
 static void crash_explore(Ctx& c, const J& crash) {
     // The victim call ran to completion while simfs recorded a snapshot before each mutating operation.
     // The disk a dying process leaves at crash point i is exactly snapshot i.
-    std::vector<Snapshot> snaps; snaps.swap(g_fs.snaps);
+    std::vector<Snapshot> snaps; snaps.swap(g_victim_snaps);
     InodeP final_state = g_fs.clone_tree(g_fs.root);
     { Snapshot s; s.root = final_state; s.kind = "end"; s.role = "none"; s.tid = c.t->tid; s.op = c.t->cur_op; snaps.push_back(s); }
     bool torn = crash["torn"].boolean(true);
@@ -706,6 +710,8 @@ static void crash_explore(Ctx& c, const J& crash) {
         }
     }
     J summary = J::obj(); summary.set("points", (long)snaps.size()); summary.set("states", (long)states.size());
+    { J pl = J::arr(); for (auto& sn : snaps) { J x = J::arr(); x.push(sn.kind); x.push(sn.path); x.push(sn.role); x.push((long)sn.wlen); x.push((long)sn.woff); pl.push(x); } summary.set("points_list", pl); }
+    R.extra.set("crash", summary);   // also available if a recovery dies
     long distinct = 0;
     for (auto& st : states) {
         std::string h = g_fs.tree_hash(st.root);
@@ -719,7 +725,16 @@ static void crash_explore(Ctx& c, const J& crash) {
         J ev = J::obj(); ev.set("e", "crash_state"); ev.set("cs", idx); ev.set("point", st.snap); ev.set("npoints", (long)snaps.size());
         ev.set("before_kind", sn.kind); ev.set("before_path", sn.path); ev.set("role", sn.role); ev.set("torn", st.torn_at); ev.set("wlen", (long)sn.wlen); ev.set("woff", (long)sn.woff);
         ev.set("disk_hash", h);
+        {   // content of the object/token file the interrupted store sequence works on, for the independent decoder (bounded)
+            std::string subj = sn.path, srole = sn.role;
+            if (srole != "object" && srole != "token.object") for (int q = st.snap - 1; q >= 0; q--) if (snaps[q].role == "object" || snaps[q].role == "token.object") { subj = snaps[q].path; srole = snaps[q].role; break; }
+            ev.set("subject_path", subj); ev.set("subject_role", srole);
+            InodeP save = g_fs.root; g_fs.root = st.root; InodeP f = g_fs.lookup(subj); g_fs.root = save;
+            if (f && !f->isdir) { size_t n = f->data ? f->data->size() : 0; ev.set("file_size", (long)n); if (n <= 262144) ev.set("file_hex", f->data ? tohex(*f->data) : ""); }
+            else ev.set("file_size", -1);
+        }
         hist_event(ev);
+        R.steps = 0;   // the step budget (bounded liveness) applies to each recovery separately
         // process death: the victim's descriptors and locks are gone; recovery runs in a fresh library copy
         g_fs.drop_pid(victim_pid); g_fs.drop_pid(rec_pid);
         g_fs.restore(st.root);
